@@ -10,8 +10,9 @@
 (* Failed checks are named and the trace continues from the specification's own state.    *)
 EXTENDS FilterLog, Json, IOUtils, TLCExt
 TraceLog == ndJsonDeserialize(IOEnv.TRACE_FILE)
-VARIABLES l, tid
-tvars == <<vars, l, tid>>
+VARIABLES l, tid,
+          unev     \* ghost: ids of entries that arrived while the filter in force could not be evaluated on them
+tvars == <<vars, l, tid, unev>>
 
 Rec == TraceLog[l]
 Chk(name, cond) == IF cond THEN TRUE ELSE PrintT(ToJson([fail |-> name, line |-> l, tid |-> tid, i |-> Rec.i, k |-> 0]))
@@ -19,21 +20,23 @@ ChkK(name, cond, k) == IF cond THEN TRUE ELSE PrintT(ToJson([fail |-> name, line
 Env(name, cond) == Assert(cond, <<"driver violated environment assumption", name, l>>)
 IsEvent(e) == l <= Len(TraceLog) /\ TraceLog[l].ev = e /\ l' = l + 1
 
-TInit == InitLog /\ l = 1 /\ tid = -1
+TInit == InitLog /\ l = 1 /\ tid = -1 /\ unev = {}
 TReset == /\ IsEvent("Reset")
           /\ arr' = <<>> /\ raw' = <<>> /\ view' = <<>> /\ flt' = AllFilter /\ paused' = FALSE /\ ret' = {} /\ probe' = <<>>
-          /\ tid' = Rec.tid
+          /\ tid' = Rec.tid /\ unev' = {}
 
 ViewNow == SpecViewOf(arr', ret', flt')
 \* clause names say whether an inapplicable comparison is in force (diagnosis of a mismatch, not a check)
-VName(n) == IF XInForce(arr', flt') THEN n \o "[inapplicable-comparison-in-force]" ELSE n
+VName(n) == IF unev' \cap ret' # {} THEN n \o "[entry-logged-while-filter-raised-is-retained]"
+            ELSE IF XInForce(arr', flt') THEN n \o "[inapplicable-comparison-in-force]" ELSE n
 \* a filter the walk uses must stay inside the generator domain on every entry it can meet
-FilterDomainOK(f, es) == WellFormed(f) => \A j \in DOMAIN es : TreeDomainOK(Parse(f)[2], es[j])
+FilterDomainOK(f, es) == WellFormed(f) => (RaisingShapeOK(f) /\ \A j \in DOMAIN es : TreeDomainOK(Parse(f)[2], es[j]))
 
 \* {"ev":"Log","e":entry,"ret":1|0|2 (2 = not observable),"raised":bool,"view":[ids]}
 TLog == /\ IsEvent("Log")
         /\ Env("Log.domain", FilterDomainOK(flt, <<Rec.e>>))
         /\ Log(Rec.e)
+        /\ unev' = IF ~paused /\ Raises(flt, Rec.e) THEN unev \cup {Len(arr) + 1} ELSE unev
         /\ Chk("Log.no-error", ~Rec.raised)
         /\ Chk(VName("Log.ret"), Rec.raised \/ Rec.ret = 2 \/ Rec.ret = (IF LogResult(Rec.e) THEN 1 ELSE 0))
         /\ Chk(VName("Log.view"), Rec.view = ViewNow)
@@ -41,19 +44,26 @@ TLog == /\ IsEvent("Log")
 \* {"ev":"SetFilter","toks":[..],"res":"ok"|"raise","view":[ids]}
 TSetFilter == /\ IsEvent("SetFilter")
               /\ Env("SetFilter.domain", FilterDomainOK(Rec.toks, arr))
-              /\ SetFilter(Rec.toks)
-              /\ Chk(IF WellFormed(Rec.toks) THEN VName("SetFilter.accepts-well-formed") ELSE "SetFilter.refuses-ill-formed",
-                     (Rec.res = "ok") = WellFormed(Rec.toks))
-              /\ Chk(VName("SetFilter.view"), Rec.view = ViewNow)
+              /\ IF ~SetFilterLegal(Rec.toks)
+                 THEN \* a filter that cannot be evaluated on a retained entry: set_filter does not swallow, the call
+                      \* raises and leaves a half-built view; the driver ends the walk here (a Reset follows)
+                      /\ Chk("SetFilter.raises-when-a-retained-entry-cannot-be-evaluated", Rec.res = "raise")
+                      /\ UNCHANGED vars
+                      /\ UNCHANGED unev
+                 ELSE /\ SetFilter(Rec.toks)
+                      /\ UNCHANGED unev
+                      /\ Chk(IF WellFormed(Rec.toks) THEN VName("SetFilter.accepts-well-formed") ELSE "SetFilter.refuses-ill-formed",
+                             (Rec.res = "ok") = WellFormed(Rec.toks))
+                      /\ Chk(VName("SetFilter.view"), Rec.view = ViewNow)
               /\ UNCHANGED tid
 \* {"ev":"Pause","on":bool,"view":[ids]}
 TPause == /\ IsEvent("Pause")
-          /\ SetPaused(Rec.on)
+          /\ SetPaused(Rec.on) /\ UNCHANGED unev
           /\ Chk(VName("Pause.view"), Rec.view = ViewNow)
           /\ UNCHANGED tid
 \* {"ev":"Clear","view":[ids]}
 TClear == /\ IsEvent("Clear")
-          /\ Clear
+          /\ Clear /\ UNCHANGED unev
           /\ Chk(VName("Clear.view"), Rec.view = ViewNow)
           /\ UNCHANGED tid
 
@@ -72,17 +82,17 @@ TMatch == /\ IsEvent("Match")
                                 Rec.leaf[k] # "E" /\ (Rec.leaf[k] = "T") = AtomTrue(lv[k], Rec.e), k)
                      /\ Chk(IF Rec.res = "E" THEN "Match.raises" ELSE "Match.verdict",
                             Rec.res # "E" /\ (Rec.res = "T") = Denote(t, Rec.e))
-          /\ UNCHANGED <<vars, tid>>
+          /\ UNCHANGED <<vars, tid, unev>>
 \* {"ev":"Parse","toks":[..],"ok":bool,"shape":[..]}
 TParse == /\ IsEvent("Parse")
           /\ LET p == Parse(Rec.toks)
              IN /\ Chk("Parse.accepts", Rec.ok = (p[1] = "ok"))
                 /\ Chk("Parse.grouping", (Rec.ok /\ p[1] = "ok") => Rec.shape = Shape(p[2]))
-          /\ UNCHANGED <<vars, tid>>
+          /\ UNCHANGED <<vars, tid, unev>>
 \* {"ev":"Same","what":"freeze"|"export","before":str,"after":str}
 TSame == /\ IsEvent("Same")
          /\ Chk("Same." \o Rec.what, Rec.before = Rec.after)
-         /\ UNCHANGED <<vars, tid>>
+         /\ UNCHANGED <<vars, tid, unev>>
 
 TNext == TReset \/ TLog \/ TSetFilter \/ TPause \/ TClear \/ TMatch \/ TParse \/ TSame
 TraceSpec == TInit /\ [][TNext]_tvars
